@@ -109,6 +109,9 @@ func runCCrash(r *verifsim.Run) {
 		cfg.W, cfg.H = r.Range(4, 6), r.Range(4, 5)
 		cfg.Cont = r.Chance(1, 2)
 		cfg.ThrOn = false
+		if i > 0 && r.Chance(1, 2) {
+			cfg = sc.Conns[0].Cfg // the same camera reconnects: the daemon keeps its Config object
+		}
 		if r.Chance(1, 8) {
 			// a camera that reports an over-long firmware string: every file start fails while the header is
 			// written (go-cptv refuses strings > 255 bytes) - failed starts must not leave anything named .cptv
